@@ -42,6 +42,14 @@ let hex_of_z64 (x : z) : string =
   done;
   Buffer.contents buf
 
+let z_of_dec (s : string) : z =
+  let neg = String.length s > 0 && s.[0] = '-' in
+  let digits = if neg then String.sub s 1 (String.length s - 1) else s in
+  let ten = z_of_int 10 in
+  let v = ref Z0 in
+  String.iter (fun ch -> v := Z.add (Z.mul !v ten) (z_of_int (Char.code ch - 48))) digits;
+  if neg then Z.opp !v else !v
+
 let byte_tab : byte array =
   Array.init 256 (fun i -> match of_N0 (n_of_int i) with Some b -> b | None -> X00)
 let int_of_byte (b : byte) : int = int_of_n (to_N0 b)
@@ -199,6 +207,30 @@ let () =
              let len = match rest with [l] -> int_of_string l | _ -> Array.length a in
              let o = mk_opts (parse_registry reg) (z_of_int (int_of_string mode)) (eof = "1") in
              show_doc_result o (run_doc c o (mem_of a) (n_of_int len)) verbose
+           | ["int64"; h; radix; neg] ->
+             let a = bytes_of_hex h in
+             (match parse_int64 c (Array.to_list (Array.map (fun x -> byte_tab.(x)) a))
+                      (z_of_int (int_of_string radix)) (neg <> "0") with
+              | IOk v -> "OK " ^ dec_of_z v
+              | IOverflow -> "OVERFLOW"
+              | IUB _ -> "UB")
+           | ["swar"; h] ->
+             let a = bytes_of_hex h in
+             let l = Array.to_list (Array.map (fun x -> byte_tab.(x)) a) in
+             let v = le_val l in
+             (match eight_digits_check v with
+              | Z0 -> "0"
+              | _ -> "1 " ^ dec_of_z (eight_digits_value v))
+           | ["double"; h] ->
+             let a = bytes_of_hex h in
+             (match parse_double c (Array.to_list (Array.map (fun x -> byte_tab.(x)) a)) with
+              | DOk f -> hex_of_z64 (sf_to_bits f)
+              | DUB _ -> "UB")
+           | ["gcd"; x; y] ->
+             if not c.clj then "NA" else
+             (match ratio_gcd (z_of_dec x) (z_of_dec y) with
+              | Some g -> dec_of_z g
+              | None -> "NONTERMINATION")
            | cmd :: _ -> "BADCMD " ^ cmd
          with Failure m -> "DRIVERFAIL " ^ m
        in
